@@ -648,5 +648,13 @@ def r09_14(ctx):
                  "everything below that node", f.loc(c)))
 
 
+def r09_15(ctx):
+    """R09.15 every output of an accepted tree can be computed: Symbol._str_default() - the oracle of the minimal configuration - evaluates a
+    bool default with expr_value() (it may be a compound expression), first active default decides (C10 R10.1b)."""
+    from . import c10
+    from .common import delegate
+    delegate(ctx, c10.r10_1b, lambda c: '_str_default' in c)
+
+
 def rules():
-    return [("R09.14", r09_14, 3), ("R09.13", r09_13, 4), ("R09.12", r09_12, 1), ("R09.11", r09_11, 1), ("R09.10", r09_10, 80), ("R09.9", r09_9, 1), ("R09.8", r09_8, 1), ("R09.7", r09_7, 2), ("R09.6", r09_6, 6), ("R09.1", r09_1, 14), ("R09.1b", r09_1b, 3), ("R09.2", r09_2, 6), ("R09.3", r09_3, 8), ("R09.4", r09_4, 5), ("R09.5", r09_5, 10)]
+    return [("R09.15", r09_15, 1), ("R09.14", r09_14, 3), ("R09.13", r09_13, 4), ("R09.12", r09_12, 1), ("R09.11", r09_11, 1), ("R09.10", r09_10, 80), ("R09.9", r09_9, 1), ("R09.8", r09_8, 1), ("R09.7", r09_7, 2), ("R09.6", r09_6, 6), ("R09.1", r09_1, 14), ("R09.1b", r09_1b, 3), ("R09.2", r09_2, 6), ("R09.3", r09_3, 8), ("R09.4", r09_4, 5), ("R09.5", r09_5, 10)]
